@@ -14,6 +14,8 @@ def stage(r, num, depth=5):
     logging.disable(logging.WARNING)
     warnings.filterwarnings('ignore')
     r.model_check('SceneRelMC', 'SceneRel.cfg')
+    from vlib import apalache
+    apalache.inductive(r, 'SceneRelInd')
     s = tlc.simulate('SceneRelMC', 'SceneRel_sim.cfg', 'SCENE/sim', num=num, depth=depth, seed=r.seed + 77)
     r.transitions += s.generated
     r.replay(None, s.behaviours, 'SceneRel', 'simulate', parallel=16, factory=SceneDriver)
